@@ -92,6 +92,21 @@ CLAIMS['C09'] = dict(
    text='Decides structural conditions of vector/sequential agreement: (G1) every vectorize() in Optimizer.Vectorize is dominated by a true isScanWithVectors, which returns true only after a loop over a non-empty snapshot in which any object without a vector returns false; (X1) in the functions reachable from the auto-selected vector operators (CountByString, Sum, the vam scanner, the materializer) no dispatch on vector.Any panics for an implementer without a case and no unchecked type assertion is applied to a vector.Any — violated on today\'s tree by the prototype CountByString (two genuine known findings, reproduced). Does not decide equality of results between the runtimes.',
    note='Scope by static calls plus dispatch on vector.Any; dispatch on zed.Type/VNG metadata inside the vector cache is constrained by the VNG writer and not decided.',
    ref='DESIGN.md §2 C09')
+CLAIMS['C02'] = dict(
+   technique='sibling kind-table agreement: case sets of type switches (type-checked AST) against the implementers of the switched interface computed on each run; constant tag sets between encoder and formatter',
+   text='Decides the kind-table clause of the ZSON round trip: at each dispatch site of package zson — Formatter.formatValue, formatTypeBody, formatType, formatPrimitive, formatTypeValue (type-value tags), BuildPrimitive, Analyzer.convertValue/convertAny/convertType (over the ZSON AST node kinds that some parser actually constructs) and buildValue (over analyzed value kinds) — every kind of the switched domain has a case, so whatever one side can emit the other can read (103 obligations). Does not decide what the text denotes: decorator elision, float/time/IP spelling, quoting, typedef scoping, JSON semantics; those are value-level and out of reach for static analysis.',
+   note='The domain of a switch is the set of implementers of its tag interface in the defining package that are instantiated somewhere in the module.',
+   ref='DESIGN.md §2 C02')
+CLAIMS['C03'] = dict(
+   technique='sibling kind-table agreement, constant-vs-type width check, dominance of section writes, source-order call-sequence agreement between Metadata and Emit of every encoder',
+   text='Decides structural conditions of the VNG round trip: (K1) NewEncoder covers every complex zed type explicitly or as a primitive column, NewBuilder and the vector cache\'s newShadow cover every vng.Metadata implementer; (B1) MaxDictSize does not exceed what the one-byte selector map can address and the dictionary is abandoned beyond it; (O1) the metadata stream is ended before its size is taken and sections are written header, metadata, data; (O2) for every encoder, Metadata (which assigns segment offsets) and Emit (which writes bytes) visit the same sub-encoders in the same order. Does not decide statistics-driven encoding choices, null runs, tag vectors or projection results.',
+   note='Sub-encoder order is read from the source order of calls in each method.',
+   ref='DESIGN.md §2 C03')
+CLAIMS['C20'] = dict(
+   technique='edge-pruned reachability for the mixin-before-buffer rule, ownership analysis, must-precede on spill writes, constant flag check',
+   text='Decides structural conditions of fuse: (M1) in Fuser.Write no path buffers a value whose type is missing from f.types unless Mixin(rec.Type()) ran first, and no path skips the lookup; (W2) buffered values are copies; (O1) stash spills the already buffered values in slice order before the current one and Write buffers in memory only while no spill file exists; (R1) the second pass shapes with ConstShaper(uberSchema.Type(), Cast|Fill|Order). Does not decide the type algebra of agg.merge, the shaper\'s casts or agreement with the fuse() aggregate, i.e. losslessness as such.',
+   note='A range loop over a slice visits it in ascending index order.',
+   ref='DESIGN.md §2 C20')
 NA = {}
 for i in range(1, 21):
     pid = 'C%02d' % i
